@@ -235,7 +235,7 @@ func (r *report) finish() int {
 			}
 			sort.Strings(missing)
 			for _, name := range missing {
-				if r.want != nil && funcFilterActive() {
+				if funcFilterActive() {
 					continue
 				}
 				violations = append(violations, r.reportStructural(p, name, "locked obligation is no longer generated (its function, loop, call site or clause has disappeared)"))
